@@ -24,7 +24,7 @@ ASSUMPTIONS = ["child processes are replaced by harness-controlled fake processe
 
 
 QUICK_BUDGET = {"cases": 50000, "deadline_s": 170, "case_timeout_s": 60, "floors": {"spawn_events": 57996, "bad_dep_tasks": 20000, "real_dependents_checked": 60}}
-THOROUGH_FACTOR = 16  # thorough = the same workload with 16x the cases (floors scale along)
+THOROUGH_FACTOR = 12  # thorough = the same workload with 12x the cases (floors scale along)
 
 
 def budget(tier):
